@@ -524,6 +524,9 @@ func (w *world) sample() interface{} {
 	}
 	var tg []string
 	for _, n := range []string{"t1", "t2", "t3"} {
+		if w.tgts[n] == nil {
+			continue
+		}
 		for _, tx := range w.tgts[n].Records() {
 			tg = append(tg, fmt.Sprintf("%s tx%d start=%v rcpts=%v body=%v commit=%d/%v abort=%d closed=%v", n, tx.N, tx.StartRes, tx.Rcpts, tx.BodyCall, tx.Commits, tx.CommitRes, tx.Aborts, tx.Closed))
 		}
